@@ -27,17 +27,25 @@ RULE = ("1..4 logged cold/hot sources (times on a 5-tick grid so that simultaneo
 ASSUMPTIONS = ["single-threaded / virtual-time execution: one run is one list of tagged events (C43 covers real threads)",
                "sources do not notify synchronously inside subscribe (the static n-ary operators subscribe all sources first)"]
 TRUSTED_EXTRA = ["the logging cold/hot sources of harness/props/comb_common.py as measuring instruments"]
-LEVEL_TEXT = ("Lean theorems over the trace machines of zip, combine_latest, with_latest_from, fork_join and (n-ary, flattened) amb: for n sources and "
-              "EVERY list of tagged events (all interleavings, conforming or not) the k-th zip output is the tuple of the k-th delivered elements, "
-              "emitted at the step that delivers the last of them; combine_latest/with_latest_from/fork_join/amb rules likewise. The machines are tied to "
-              "/repo by replaying the recorded event list of every generated real run and comparing outputs and subscribe/unsubscribe effects in order.")
-LEVEL_NOTE = "see the final report; partial theorems are named _partial"
+LEVEL_TEXT = ("Lean theorems for n sources and EVERY list of tagged events (all interleavings, conforming or not, dispose anywhere): zip's k-th output is the tuple of the k-th delivered "
+"elements and #outputs = min #delivered at every moment; zip completes exactly when a completed source has nothing buffered; combine_latest emits nothing until all sources "
+"delivered and then the tuple of latest values per element; with_latest_from emits only on primary elements once all others have a value; fork_join emits the last values at the "
+"last completion and short-circuits on an empty completion; amb forwards exactly the notifications of the first source to notify and unsubscribes all others in that step, before "
+"forwarding. Tied to /repo by replaying recorded event lists of generated real runs (1..4 cold/hot/rude sources, simultaneous notifications, dispose) and comparing outputs and "
+"subscribe/unsubscribe effects in same-instant order, plus property-text oracles.")
+LEVEL_NOTE = ("Model = RxModel/Comb.lean + RxModel/CombN.lean (zip: queues/is_completed; combine_latest: has_value/has_value_all/is_done/values; with_latest_from: NO_VALUE "
+"as none, children subscribed before the parent, parent first in the composite; fork_join; amb: n-ary fold of the binary operator FLATTENED to one machine "
+"(choice = first source to notify; loser disposal order k-1..0,k+1..n-1 and subscription order n-1..0 as produced by the nested binary operators - validated "
+"by the correspondence, not proved equal to the nested composition in Lean). All nine design theorems are proved at full strength for n sources and every event "
+"list (cl_* need n >= 1, as the code raises otherwise); zip_kth's timing clause is 'number of outputs = min number of delivered elements at every prefix'. "
+"combine_latest's completion is not in the property text; the oracle only bounds it. Not modelled: sources notifying synchronously inside subscribe (the operators "
+"subscribe all sources first), futures. Threads are C43.")
 
 OPS = ["zip", "combine_latest", "with_latest_from", "fork_join", "amb", "amb2"]
 
 
 def cases(rng, tier):
-    n = fw.tier_scale(tier, 4200, 36000)
+    n = fw.tier_scale(tier, 4200, 60000)
     for i in range(n):
         op = OPS[i % len(OPS)]
         if op == "amb2":
